@@ -434,6 +434,15 @@ def run(ctx):
     real += runs.option_sweep("std", ctx.seed)
     items += [("real", c) for c in real]
     items += [("ins", c) for c in runs.ins_lattice(ctx.seed, True, resume_subsets=False) + runs.option_sweep("ins", ctx.seed)]
+    # the gate behind "lies within the prior bounds": Model.in_bounds must be the exact closed-interval
+    # test by name (shared with C10, which owns the evaluation interface)
+    from checks import c10
+
+    gate = c10.default_methods_worker(4)
+    ctx.count("evaluations", gate["counts"]["evaluations"])
+    for k_, d_, data_ in gate["violations"]:
+        if k_.startswith("in_bounds"):
+            ctx.violation(f"gate:{k_}", d_, {"mode": "gate"})
     labels = set()
     rejected = []
     for (kind, item), res in ctx.pmap(_dispatch, items):
@@ -461,6 +470,10 @@ def run(ctx):
 def replay(ctx, data):
     if data.get("mode") == "pop":
         return [v[1] for v in pop_worker((data["cfg"], 16))["errs"]]
+    if data.get("mode") == "gate":
+        from checks import c10
+
+        return [d_ for k_, d_, _ in c10.default_methods_worker(4)["violations"] if k_.startswith("in_bounds")]
     if data.get("mode") == "misc":
         return [v[1] for v in misc_worker(16)["errs"]]
     return [v[1] for v in _dispatch((data["mode"], data["cfg"]))["errs"]]
